@@ -332,13 +332,26 @@ def build_all(index):
         db.extract_method("add_feed_biofuel_to_model", opt, mv)
         db.extract_method("add_percentage_intake_constraints", opt, mv)
     db.extract_method("add_total_human_consumption_to_model", "to_humans", mv)
-    db.extract_method(
-        "add_maximize_min_month_objective_to_model", "to_humans",
-        lambda it, obj, model, vd, month: dict(model=model, variables=vd, month=month, maximize_constraints=PList([])),
-    )
+    # the objective of one month, called per month by the builder - or, when the routine loops over the months itself, all of them at once
+    mm = db.method("add_maximize_min_month_objective_to_model")
+    mm_params = [a.arg.lower() for a in mm.args.args][1:]
+    if any(p_ in ("month", "m", "t") for p_ in mm_params):
+        db.extract_method(
+            "add_maximize_min_month_objective_to_model", "to_humans",
+            lambda it, obj, model, vd, month: dict(model=model, variables=vd, month=month, maximize_constraints=PList([])),
+        )
+    else:
+        db.extract_method(
+            "add_maximize_min_month_objective_to_model", "to_humans",
+            lambda it, obj, model, vd, month: {k_: v_ for k_, v_ in dict(model=model, variables=vd, maximize_constraints=PList([])).items()
+                                              if k_ != "maximize_constraints" or any("constraint" in p_ for p_ in mm_params)},
+            month_param=False,
+        )
     db.extract_method(
         "add_maximize_sum_total_feed_used_by_animals", "to_animals",
-        lambda it, obj, model, vd, month: dict(model=model, variables=vd, nmonths=Rat.atom(NSYM)), month_param=False,
+        lambda it, obj, model, vd, month: {k_: v_ for k_, v_ in dict(model=model, variables=vd, nmonths=Rat.atom(NSYM)).items()
+                                          if k_ != "nmonths" or len(db.method("add_maximize_sum_total_feed_used_by_animals").args.args) > 3},
+        month_param=False,
     )
     for floor_helper, opt in (("constrain_next_optimization_to_have_same_minimum_starvation", "to_humans"),
                               ("constrain_next_optimization_to_have_same_feed_biofuel", "to_animals")):
